@@ -19,6 +19,7 @@
       code points (`chars`, switched by the translator fact `Cfg.nameTestOnBytes`).
 -/
 import PsutilModel.Base.Bytes
+import PsutilModel.Base.Dec
 namespace Psutil.C12
 
 /-! ## configuration: literals and shape facts re-derived from the source by the translator -/
@@ -149,6 +150,14 @@ structure World where
   exe : LinkSt
   cwd : LinkSt
   fs : Bytes → FsEnt
+  /-- real uid of the `Uid:` line of `/proc/<pid>/status` (kept by a zombie) -/
+  uid : Nat := 0
+  /-- `tty_nr` of `/proc/<pid>/stat` (kept by a zombie) -/
+  tty : Nat := 0
+  /-- the user database: `pwd.getpwuid(uid).pw_name`, `none` = KeyError -/
+  users : Nat → Option Bytes := fun _ => none
+  /-- `_psposix.get_terminal_map()`: device number → path of a `/dev/tty*`, `/dev/pts/*` -/
+  ttys : Nat → Option Bytes := fun _ => none
 
 /-- the exceptions a caller can see -/
 inductive Exc | noSuchProcess | zombieProcess | accessDenied | fileNotFound
@@ -366,15 +375,43 @@ def name (cfg : Cfg) (w : World) : Res Bytes :=
         if namePrefix cfg n ext then .ok ext else .ok n
     else .ok n
 
+/-! ## identity of a (possibly zombie) process: username(), terminal()
+
+  Both are answered from `/proc/<pid>/status` / `/proc/<pid>/stat`, which a zombie keeps. -/
+
+/-- `_pslinux.Process.uids().real` (the `Uid:` line of `status`) -/
+def procUid (w : World) : Res Nat :=
+  if w.dirExists then .ok w.uid else .error .noSuchProcess
+
+/-- `psutil.Process.username()`: `pwd.getpwuid(real_uid).pw_name`, `str(real_uid)` on KeyError -/
+def username (w : World) : Res Bytes :=
+  match procUid w with
+  | .error e => .error e
+  | .ok u =>
+    match w.users u with
+    | some n => .ok n
+    | none => .ok (renderDec u)
+
+/-- `int(self._parse_stat_file()['ttynr'])` -/
+def procTty (w : World) : Res Nat :=
+  if w.dirExists then .ok w.tty else .error .noSuchProcess
+
+/-- `_pslinux.Process.terminal()`: `tmap[tty_nr]`, `None` on KeyError -/
+def terminal (w : World) : Res (Option Bytes) :=
+  match procTty w with
+  | .error e => .error e
+  | .ok t => .ok (w.ttys t)
+
 /-! ## one call on one Process object -/
 
-inductive Call | cmdline | environ | exe | cwd | name
+inductive Call | cmdline | environ | exe | cwd | name | username | terminal
   deriving DecidableEq, Repr
 
 inductive Out
   | args (r : Res (List Bytes))
   | dict (r : Res Dict)
   | str (r : Res Bytes)
+  | opt (r : Res (Option Bytes))
   deriving DecidableEq, Repr
 
 def step (cfg : Cfg) (st : St) (w : World) : Call → St × Out
@@ -383,6 +420,79 @@ def step (cfg : Cfg) (st : St) (w : World) : Call → St × Out
   | .exe => let (st', r) := exe cfg w st; (st', .str r)
   | .cwd => (st, .str (cwd cfg w))
   | .name => (st, .str (name cfg w))
+  | .username => (st, .str (username w))
+  | .terminal => (st, .opt (terminal w))
+
+/-! ## the same calls inside a `oneshot()` block
+
+  `_parse_stat_file`, `_read_status_file` (and the front end's `uids`) are
+  `memoize_when_activated`: inside a block their first successful result is reused. Everything
+  else (`cmdline`, `environ`, the links, `_is_zombie`'s own read of `stat`) is read afresh. -/
+
+/-- what the block has cached so far -/
+structure Block where
+  /-- `(name, tty_nr)` of the first `_parse_stat_file()` of the block -/
+  stat : Option (Bytes × Nat)
+  /-- real uid of the first `uids()` / `_read_status_file()` of the block -/
+  uid : Option Nat
+
+def Block.empty : Block := ⟨none, none⟩
+
+def procNameIn (b : Block) (w : World) : Res Bytes :=
+  match b.stat with
+  | some (n, _) => .ok n
+  | none => procName w
+
+def nameIn (cfg : Cfg) (b : Block) (w : World) : Res Bytes :=
+  match procNameIn b w with
+  | .error e => .error e
+  | .ok n =>
+    if cfg.nameMinLen ≤ nameLen cfg n then
+      match cmdline cfg w with
+      | .error .accessDenied => .ok n
+      | .error .zombieProcess => .ok n
+      | .error e => .error e
+      | .ok [] => .ok n
+      | .ok (a0 :: _) =>
+        let ext := basename a0
+        if namePrefix cfg n ext then .ok ext else .ok n
+    else .ok n
+
+def procUidIn (b : Block) (w : World) : Res Nat :=
+  match b.uid with
+  | some u => .ok u
+  | none => procUid w
+
+def procTtyIn (b : Block) (w : World) : Res Nat :=
+  match b.stat with
+  | some (_, t) => .ok t
+  | none => procTty w
+
+def usernameIn (b : Block) (w : World) : Res Bytes :=
+  match procUidIn b w with
+  | .error e => .error e
+  | .ok u =>
+    match w.users u with
+    | some n => .ok n
+    | none => .ok (renderDec u)
+
+def terminalIn (b : Block) (w : World) : Res (Option Bytes) :=
+  match procTtyIn b w with
+  | .error e => .error e
+  | .ok t => .ok (w.ttys t)
+
+def stepIn (cfg : Cfg) (b : Block) (st : St) (w : World) : Call → St × Out
+  | .name => (st, .str (nameIn cfg b w))
+  | .username => (st, .str (usernameIn b w))
+  | .terminal => (st, .opt (terminalIn b w))
+  | c => step cfg st w c
+
+/-- the world as the block sees it: cached parts from the first read, the rest current -/
+def Block.view (b : Block) (w : World) : World :=
+  { w with
+    comm := match b.stat with | some (n, _) => n | none => w.comm
+    tty := match b.stat with | some (_, t) => t | none => w.tty
+    uid := match b.uid with | some u => u | none => w.uid }
 
 /-- run a history of calls on one object; outputs in order -/
 def runAll (cfg : Cfg) : St → List (World × Call) → St × List Out
